@@ -143,7 +143,7 @@ func genCase(r *h.Run, idx int) caseT {
 		c.MaxReq = []int{0, 500, 70000}[rng.Intn(3)]
 		c.SrvKill = rng.Intn(2) == 0
 		c.CliKill = rng.Intn(3) == 0
-		c.NbTimeout = []int{20, 20, 20, 0}[rng.Intn(4)]
+		c.NbTimeout = []int{6, 6, 6, 0}[rng.Intn(4)]
 		c.NbConns = 1 + rng.Intn(4)
 	}
 	return c
